@@ -14,14 +14,15 @@ LEVEL = "exploration"
 RULE = (
     "case = workflow from the FULL family (random DAGs with failing / stopping / failed-continue branches next to running "
     "ones, early-firing joins with failing or slow branches, synthetic before/after/on-failure stages that fail, "
-    "suspending stages without a signal, jump loops that hit the limit, mutex / deferred-choice siblings) x delivery "
+    "suspending stages without a signal, jump loops that hit the limit, mutex / deferred-choice siblings, a parent with synthetic "
+    "children next to a failing sibling whose StartStage is held back until everything else has drained) x delivery "
     "schedule (random / LIFO order, withheld acks, one message held back k steps); plus the same family run by three "
     "worker threads interleaved at SQL-statement granularity (random / PCT schedules). After the queue is drained the "
     "four quiescence predicates are evaluated on store.retrieve(). Non-trivial = quiescent run whose final state is not "
     "all-SUCCEEDED; distinct = (workflow status, sorted multiset of stage statuses, spec shape)."
 )
 ASSUMPTIONS = ["SQLite backend", "quiescence = queue_messages empty after virtual-time warps; wait-budget exhaustion (max_stage_wait_retries=6) ending TERMINAL is legal and counted"]
-MIN_OBS = {"quiescent_runs": {"quick": 1000, "thorough": 20000}, "nonsuccess_final_states": {"quick": 100, "thorough": 2000}}
+MIN_OBS = {"quiescent_runs": {"quick": 1000, "thorough": 20000}, "nonsuccess_final_states": {"quick": 100, "thorough": 2000}, "late_start_runs": {"quick": 100, "thorough": 800}}
 TIMEOUT = {"quick": 600, "thorough": 3000}
 
 HOLD_TYPES = ["StartStage", "CompleteStage", "CompleteTask", "RunTask", "CancelStage", "CompleteWorkflow", "ContinueParentStage", "JumpToStage"]
@@ -41,6 +42,8 @@ def _spec_for(i: int, seed: int) -> dict:
     if m == 8:
         return specs.jump_limit(rng.choice([0, 1, 2, 3, None]), rng.choice(["wf", "stage"]), rng.choice(["loop", "self", "side"]))
     if m == 9:
+        if rng.random() < 0.5:
+            return specs.failing_sibling_of_synthetic(rng)
         return rng.choice([specs.suspend_wf, specs.mutex_pair, specs.choice_pair, specs.racing_failure])()
     if m == 10:
         return specs.or_split_variant(rng)
@@ -51,6 +54,7 @@ def gen_cases(tier: str, seed: int) -> list[dict]:
     n, k = (80, 20) if tier == "quick" else (500, 80)
     cases = [{"spec_i": i, "seed": seed, "nsched": k} for i in range(n)]
     cases += [{"kind": "race", "i": i, "seed": seed, "runs": 12} for i in range(24 if tier == "quick" else 200)]
+    cases += [{"kind": "late_start", "i": i, "seed": seed} for i in range(6 if tier == "quick" else 40)]
     return cases
 
 
@@ -97,9 +101,45 @@ def _race(case: dict) -> dict:
     return {"violations": uniq, "obs": dict(obs), "keys": sorted(keys)}
 
 
+def _late_start(case: dict) -> dict:
+    """A StartStage that is held back until the rest of the workflow has drained (its worker was slow, its
+    lock lapsed, ...): the stage - here one with synthetic children, next to a failing sibling - starts in a
+    workflow that is already final and must still be wound down to a final status."""
+    rng = random.Random(case["seed"] * 977 + case["i"])
+    spec = specs.failing_sibling_of_synthetic(rng) if case["i"] % 3 else specs.synthetic_variant(rng)
+    obs: Counter = Counter()
+    keys: set = set()
+    violations = []
+    for nth in range(0, 4):
+        for steps in (8, 20, 45, 90):
+            for order in ("fifo", "random"):
+                run = delivery_run(spec, seed=rng.randrange(1 << 30), order=order, hold={"type": "StartStage", "nth": nth, "steps": steps}, max_steps=900)
+                obs["evaluations"] += 1
+                obs["late_start_runs"] += 1
+                if run.budget_exhausted or not run.quiescent:
+                    obs["budget_exhausted"] += 1
+                    continue
+                obs["quiescent_runs"] += 1
+                v = oracles.attribute(oracles.quiescence_check(run, "C05", spec), run, "C05")
+                for x in v:
+                    x.update(spec=spec["name"], held_start_stage=nth, held_for=steps)
+                violations += v
+                sts = sorted(s_["status"] for s_ in run.state["stages"].values())
+                keys.add(f"late:{spec['name'].split('_')[0]}:{run.state['wf']}:{','.join(sts)}")
+    seen = set()
+    uniq = []
+    for x in violations:
+        if x["sig"] not in seen:
+            seen.add(x["sig"])
+            uniq.append(x)
+    return {"violations": uniq, "obs": dict(obs), "keys": sorted(keys)}
+
+
 def run_case(case: dict) -> dict:
     if case.get("kind") == "race":
         return _race(case)
+    if case.get("kind") == "late_start":
+        return _late_start(case)
     spec = _spec_for(case["spec_i"], case["seed"])
     rng = random.Random(case["seed"] * 131 + case["spec_i"])
     obs: Counter = Counter()
